@@ -58,6 +58,17 @@ func eventStructure(w *World, sr *SessRec, stats map[string]bool) string {
 		}
 	}
 	// (the recorder attaches at the connection event: the hand-off of the open packet precedes it on the socket)
+	closedMidHandOff := false
+	if w.OverlappingHandOffs && len(sr.Closes) > 0 {
+		// two hand-offs were outstanding on two goroutines and the session was closed meanwhile (by a send callback
+		// running on one of them): the hand-off the other goroutine was in the middle of is abandoned where it
+		// stands: nothing of a session follows its close event. Its session-level flush may have no server-level
+		// counterpart, and hand-offs may lack their drain.
+		closedMidHandOff = true
+	}
+	if len(srvFlush) > 0 && len(srvFlush[0]) == 1 && srvFlush[0][0].Type == "open" && len(srvFlush) == len(sockFlush) && closedMidHandOff {
+		sockFlush = sockFlush[:len(sockFlush)-1]
+	}
 	if len(srvFlush) < len(sockFlush) || len(srvFlush) > len(sockFlush)+1 {
 		return fmt.Sprintf("%d flush events on the session, %d on the server for it", len(sockFlush), len(srvFlush))
 	}
@@ -67,7 +78,11 @@ func eventStructure(w *World, sr *SessRec, stats map[string]bool) string {
 			return fmt.Sprintf("hand-off #%d: session flush carries %v, server flush %v", i, sockFlush[i], srvFlush[i+off])
 		}
 	}
-	if nSockDrain != len(sockFlush) || nSrvDrain != len(srvFlush) {
+	if closedMidHandOff {
+		if nSockDrain > len(sockFlush)+1 || nSrvDrain > len(srvFlush) {
+			return fmt.Sprintf("flush/drain counts: session %d/%d, server %d/%d", len(sockFlush), nSockDrain, len(srvFlush), nSrvDrain)
+		}
+	} else if nSockDrain != len(sockFlush) || nSrvDrain != len(srvFlush) {
 		return fmt.Sprintf("flush/drain counts: session %d/%d, server %d/%d", len(sockFlush), nSockDrain, len(srvFlush), nSrvDrain)
 	}
 	// order within the session's trace: every flush is followed by its drain before the next flush
